@@ -58,4 +58,22 @@ SameResolution(T, D, reqs) ==
     (a.ok /\ a.p \in DOMAIN T) =>
       LET b == ResolvePath(D, reqs[k]) IN
       b.ok /\ b.p = a.p /\ b.p \in DOMAIN D /\ D[b.p].t = T[a.p].t /\ (T[a.p].t = "file" => D[b.p].c = T[a.p].c)
+\* X: expansions of the wildcard requests [p |-> components, w |-> positions that came from a wildcard]; lits: literal requests.
+\* Explanation tests: (1) the resolver expands a wildcard only against symlinks - where the wildcard matched a plain
+\* directory it keeps the PATTERN and never looks at links further down; (2) link memoisation as for literal requests.
+ExpansionClauses(T, D, X, lits) ==
+  LET tr(k) == Traverse(T, X[k].p)
+      bad == {k \in DOMAIN X : ~SameResolution(T, D, <<X[k].p>>)}
+      overDir(k) == \E i \in DOMAIN X[k].w :
+                      LET w == X[k].w[i]
+                          a == Traverse(T, SubSeq(X[k].p, 1, w - 1))
+                          b == Traverse(T, SubSeq(X[k].p, 1, w))
+                      IN a.ok /\ b.ok /\ b.links = a.links /\ tr(k).links # b.links
+      memo(k) == tr(k).dup \/ (\E j \in DOMAIN X : j # k /\ tr(j).links \cap tr(k).links # {})
+                 \/ (\E j \in DOMAIN lits : Traverse(T, lits[j]).links \cap tr(k).links # {})
+  IN IF bad = {} THEN {}
+     ELSE IF \A k \in bad : overDir(k) THEN {"wildcardExpansionResolvesDifferentlyAfterTransfer/explainedByWildcardOverDirectory"}
+     ELSE IF \A k \in bad : overDir(k) \/ memo(k) THEN {"wildcardExpansionResolvesDifferentlyAfterTransfer/explainedByLinkMemoisation"}
+     ELSE {"wildcardExpansionResolvesDifferentlyAfterTransfer"}
+
 =============================================================================
